@@ -19,6 +19,7 @@ import numpy as np
 ID = "C13"
 FLAVOUR = "plain"
 LEVEL = "exploration"
+THOROUGH_MULT = 1.3       # deepens the sampled strata of the thorough tier (measured: about ten minutes on 16 cores)
 RULE = (
     "seeded generator: nucleotide sequence of 1-60 symbols (15 % with IUPAC ambiguity letters), sequence_start in "
     "{1, 2, 17, 101, 10^6}, 0-8 features of 1-4 locations (either strand, 25 % mixed strands, nested / overlapping / "
